@@ -284,7 +284,7 @@ impl Prop for C15 {
   fn assumptions(&self) -> Vec<String> {
     vec![
       "parameters of interface member declarations (no body, no scope) are not queried".into(),
-      "for a variable bound by an or-pattern every alternative's binder is a binding occurrence; definition may land on any of them, references must contain at least one".into(),
+      "for a variable bound by an or-pattern every alternative's binder is a binding occurrence for find-references (the answer must contain at least one); go-to-definition must land on the first alternative's binder, which is what the checker's scope analysis resolves every occurrence to".into(),
       "rename returns the pretty-printed module, so changed occurrences are compared in the sequence of lower-case identifiers after the import section, against the formatter's output for the original".into(),
       "`behaves identically` is decided by the reference interpreter on both documents (the compiled pipeline is C01's subject)".into(),
     ]
@@ -396,6 +396,16 @@ impl Prop for C15 {
           if !binders.iter().any(|b| span(b) == span(&l)) {
             out.fail(format!("definition/wrong-binding/{}", if o.binder { "at-binder" } else { "at-use" }), ctx(&format!("go-to-definition returned {}", loc_str(&l))));
             return out;
+          }
+          // the checker resolves every occurrence - also the occurrences in later alternatives of an
+          // or-pattern - to the binding introduced by the first alternative (ssa_analysis records the
+          // later ones as uses); occurrences are in document order, so that is the first binder
+          if binders.len() > 1 {
+            out.label("definition:variable-bound-in-several-or-pattern-alternatives");
+            if span(&binders[0]) != span(&l) {
+              out.fail(format!("definition/not-the-binding-the-checker-resolves/{}", if o.binder { "at-binder" } else { "at-use" }), ctx(&format!("go-to-definition returned {} (the checker resolves the name to the first alternative's binding {})", loc_str(&l), loc_str(&binders[0]))));
+              return out;
+            }
           }
         }
       }
